@@ -25,17 +25,37 @@ def _raising(i):
 def _features(region, delegates_frombuffer=False):
     ifs = [i for i in _ifs(region) if _raising(i)]
     txts = [(i, [ast.unparse(d) for d in G.disjuncts(i.test)]) for i in ifs]
-    post = any(any(d.replace(' ', '') in ('len(self)!=length', 'length!=len(self)') for d in ds) for _, ds in txts)
-    neglen = post or delegates_frombuffer or any(any(d.replace(' ', '') in ('length<0', '0>length') or d.replace(' ', '').endswith('andlength<0') for d in ds) for _, ds in txts)
-    offbeyond = any(any(d.startswith('offset >') or d.startswith('offset >=') for d in ds) for _, ds in txts)
-    lenbeyond = post or delegates_frombuffer
+
+    def atoms(t):
+        """comparisons that must hold for the raising branch to be taken (conjuncts) or that each take it (disjuncts)"""
+        if isinstance(t, ast.BoolOp):
+            out = []
+            for v in t.values:
+                out += atoms(v)
+            return out
+        return [t]
+    post = neglen = offbeyond = False
+    lenbeyond = False
     for i in ifs:
-        for d in G.disjuncts(i.test):
-            if isinstance(d, ast.Compare) and len(d.ops) == 1 and isinstance(d.ops[0], (ast.Gt, ast.GtE, ast.Lt, ast.LtE)):
-                big, small = (d.left, d.comparators[0]) if isinstance(d.ops[0], (ast.Gt, ast.GtE)) else (d.comparators[0], d.left)
+        for d in atoms(i.test):
+            if not (isinstance(d, ast.Compare) and len(d.ops) == 1):
+                continue
+            a, op, b = d.left, d.ops[0], d.comparators[0]
+            ta, tb = ast.unparse(a), ast.unparse(b)
+            if isinstance(op, ast.NotEq) and {ta, tb} == {'len(self)', 'length'}:
+                post = True
+            if isinstance(op, (ast.Gt, ast.GtE, ast.Lt, ast.LtE)):
+                big, small = (a, b) if isinstance(op, (ast.Gt, ast.GtE)) else (b, a)
                 form = _lin_sub(_lin(big), _lin(small))
-                if form.get('length', 0) > 0 and any(v > 0 for k, v in form.items() if isinstance(k, str) and 'offset' in k):
+                off_pos = any(v > 0 for k, v in form.items() if isinstance(k, str) and 'offset' in k)
+                if form.get('length', 0) > 0 and off_pos:
                     lenbeyond = True
+                if off_pos and not form.get('length') and any(v < 0 for k, v in form.items() if k != 1):
+                    offbeyond = True          # offset > <size of the data>
+                if form.get('length', 0) < 0 and all(k in ('length', 1) for k in form) and form.get(1, 0) >= 0:
+                    neglen = True             # 0 > length  /  length < 0
+    neglen = neglen or post or delegates_frombuffer
+    lenbeyond = lenbeyond or post or delegates_frombuffer
     slicers = set()
     for s in region:
         for x in ast.walk(s):
